@@ -258,7 +258,8 @@ where
                                 // write the files to the current directory with their SOPInstanceUID as filenames
                                 let mut file_path = out_dir.to_path_buf();
                                 file_path.push(
-                                    sop_instance_uid.trim_end_matches('\0').to_string() + ".dcm",
+                                    crate::instance_file_name(&sop_instance_uid)
+                                        .whatever_context("invalid SOP Instance UID in store request")?,
                                 );
                                 file_obj
                                     .write_to_file(&file_path)
